@@ -111,10 +111,16 @@ def precond(rng, n, cplx, Are):
 def _controller(rng, ty, n, r0, rinf0, e0, estar, big):
     """controller config with tolerances scaled to the problem (all dyadic)"""
     level = rng.choice([1, 1, 1, 2, 3])
-    want_none = (not big) and rng.random() < 0.3
-    limit = None if want_none else (rng.randint(0, 2 * n + 4) if not big else rng.randint(3, 14))
+    want_none = (not big) and rng.random() < 0.2
+    if big:
+        limit = rng.randint(3, 14)
+    elif rng.random() < 0.65:
+        limit = rng.randint(0, max(1, n - 1))      # stops before exact termination (n steps) can occur
+    else:
+        limit = rng.randint(0, 2 * n + 4)
+    limit = None if want_none else limit
     cj = dict(type=ty, level=level, limit=limit)
-    kmax = 24
+    kmax = 24 if rng.random() < 0.3 else 12
     if ty == "gradnorm":
         mode = rng.choice(["abs", "rel", "both", "none"]) if limit is not None else rng.choice(["abs", "rel", "both"])
         cj["tol_abs"] = fstr(_pow2(max(r0, 1e-3)) / 2 ** rng.randint(1, kmax)) if mode in ("abs", "both") else None
@@ -134,6 +140,8 @@ def _controller(rng, ty, n, r0, rinf0, e0, estar, big):
 
 def cg_case(rng, nmax=8, nmin=1, ty=None):
     n = rng.randint(nmin, nmax)
+    if nmin == 1 and n <= 2 and rng.random() < 0.6:
+        n = rng.randint(3, nmax)               # tiny systems terminate exactly after n steps: keep them rarer
     big = n > 8
     cplx = rng.random() < 0.4
     re, im, fam = hpd(rng, n, cplx)
@@ -391,20 +399,28 @@ def ctrl_first_near(case, margin):
 def ie_cases(rng, count):
     res = []
     for _ in range(count):
-        n = rng.randint(1, 5)
+        n = rng.choice([1, 2, 3, 3, 4, 4, 5, 5, 6])
         cplx = rng.random() < 0.4
         re, im, fam = hpd(rng, n, cplx, rng.choice(["unimod", "gram", "tridiag", "diag"]))
         ire, iim = inv_exact(re, im)
-        cap = rng.choice([1, 2, 3, 3, 3, 4, 8, 12, 12, 5, 10, 6, 9, 15, 7])
-        mode = rng.choice([1, 2, 4, 4, 4, 8, 8, 3, 0])
+        if rng.random() < 0.45:     # the typical use: operator offers times/adjoint_times, inverse requested
+            cap, mode = 3, rng.choice([4, 4, 8])
+        else:
+            cap = rng.choice([1, 2, 3, 4, 8, 12, 12, 5, 10, 6, 9, 15, 7])
+            mode = rng.choice([1, 2, 4, 4, 8, 8, 3, 0])
         opm = dict(mat=re, inv=ire, cap=cap)
         if cplx:
             opm.update(mati=im, invi=iim)
         case = dict(op="ie", n=n, cplx=cplx, opm=opm, mode=mode, family=fam, hpd=True, klass="T")
-        if rng.random() < 0.5:
-            dre = [[re[i][i] if i == j else 0 for j in range(n)] for i in range(n)]
-            dinv = [[(fstr(Fraction(1, re[i][i]))) if i == j else 0 for j in range(n)] for i in range(n)]
-            ap = dict(mat=dre, inv=dinv, cap=rng.choice([15, 15, 15, 3, 12, 5, 10]))
+        if rng.random() < 0.6:
+            dg = [re[i][i] for i in range(n)]
+            if n > 1 and rng.random() < 0.15:   # indefinite approximation: CG gives up ("Positive definiteness ...")
+                dg = [d if rng.random() < 0.5 else -d for d in dg]
+                case["hpd"] = False
+                case["family"] = fam + ":indef-approx"
+            dre = [[dg[i] if i == j else 0 for j in range(n)] for i in range(n)]
+            dinv = [[(fstr(Fraction(1, dg[i]))) if i == j else 0 for j in range(n)] for i in range(n)]
+            ap = dict(mat=dre, inv=dinv, cap=rng.choice([15, 15, 15, 15, 3, 12, 5, 10]))
             if cplx:
                 z = [[0] * n for _ in range(n)]
                 ap.update(mati=z, invi=z)
